@@ -38,7 +38,9 @@ def prepare(rnd, ids):
             for f in opens:
                 txt += " - %s\n" % str(f.get("what", f.get("key", "")))[:300].replace("\n", " ")
         open(os.path.join(od, "property.txt"), "w").write(txt)
-        print("prepared", pid, wt, od)
+        base = subprocess.check_output(["git", "-C", "/repo", "rev-parse", "--short", "HEAD"], text=True).strip()
+        open(os.path.join(od, "BASE"), "w").write(base)
+        print("prepared", pid, wt, od, base)
 
 
 def outcome(res, prop):
@@ -67,6 +69,14 @@ def collect(rnd, ids):
             for f in os.listdir(src):
                 if f in ("patch.diff", "meta.json") or f.startswith("demo."):
                     shutil.copy(os.path.join(src, f), dst)
+            try:
+                base = open(os.path.join(od, "BASE")).read().strip()
+                mp = os.path.join(dst, "meta.json")
+                mm = json.load(open(mp))
+                mm.setdefault("base_commit", base)
+                json.dump(mm, open(mp, "w"), indent=1)
+            except Exception as e:  # noqa
+                print("no base commit recorded for", dst, e)
         subprocess.call(["git", "-C", "/repo", "worktree", "remove", "--force", wt], stderr=subprocess.DEVNULL)
         shutil.rmtree(od, ignore_errors=True)
     for pid in ids:
